@@ -105,7 +105,7 @@ CLAIMS = {
   'Theorems over the world model (global PRNG state + table of sessions): a call on one session leaves every other session unchanged; its answer and its effect on its own session do not depend on the other sessions or on the global PRNG state (valid LDPC parameters overwrite it, C05); C12_projection: in ANY interleaving the answers to a session (and its final state) are those of its calls run alone. Tie: 2-6 sessions of all codecs interleaved at random, all interleavings of two short histories, groups sharing (k, n-k) across codecs and fields, each session also replayed alone on the real library; every observation line must be identical.',
   'Lean 4 locality/projection theorem + interleaved-vs-solo differential run', 'DESIGN.md section 4, C12'),
  'C16': (M, 'proof',
-  'Theorems: acceptance <=> a product shape exists, and for EVERY accepted configuration (kernel evaluation over the whole finite domain k<=16, n<=24) the matrix is the D x L product single-parity code, well formed, staircase shaped, covering every symbol; the encoder model satisfies every check; any single loss is in the peeling closure; the streaming decoder on these matrices is the peeling closure (C04 instantiated). Tie: the whole parameter grid, the real matrix of every accepted configuration, all receive patterns for n<=13 and sampled ones above through both APIs then finish, release after every prefix, on the real library (after four repairs of the 2D codec).',
+  'Theorems: acceptance <=> a product shape exists, and for EVERY accepted configuration (kernel evaluation over the whole finite domain k<=16, n<=24) the matrix is the D x L product single-parity code, well formed, staircase shaped, covering every symbol; the encoder model satisfies every check; any single loss is in the peeling closure; the streaming decoder on these matrices is the peeling closure (C04 instantiated); C16_finish_ok_iff_determined: of_finish_decoding succeeds exactly when the checks determine the source symbols (C03 instantiated on every accepted shape); C16_roundtrip: no decoder session ever holds a wrong source symbol (C01 instantiated). Tie: the whole parameter grid, the real matrix of every accepted configuration, all receive patterns for n<=13 and sampled ones above through both APIs then finish, release after every prefix, on the real library (after four repairs of the 2D codec).',
   'Lean 4 theorems over 2D model + exhaustive configuration correspondence', 'DESIGN.md section 4, C16'),
 }
 
